@@ -121,6 +121,7 @@ fn gen_c<C: Suite>(seed: u64, run: u64, tier: Tier) -> Scenario {
         Tier::Thorough => C::COST <= 2 && p.chance(1, 40),
     };
     s.extra = json!({"big_threshold": big});
+    maybe_rng_alias(&mut s, seed, run, 12);
     s
 }
 
